@@ -296,6 +296,89 @@ def explore(ctx, nprog, reps):
             "timeouts_resolved_by_rerun": len(inconclusive) - len(unresolved)}
 
 
+# ---------------------------------------------------------------------------------------------
+# generic leak detector (in-process): every integer field and every array/map length of the serde dump of
+# Shell after 1, 2 and 50 iterations of a body. Part of the verdict (not exploration).
+
+KF_ENTRY_COUNT = "KF-C18-env-entry-count-drift"
+
+RAW_UNITS = [
+    ". $D/empty.sh", ". $D/comments.sh", ". $D/blank.sh", ". /dev/null", ". $D/args.sh a b c", "source $D/comments.sh cfg-arg",
+    ". $D/empty.sh x y", "fsrc", ". $D/nonexistent.sh",
+    "pushd $D/work >/dev/null; popd >/dev/null", "pushd $D/nonexistent", "pushd $D/empty.sh", "popd", "popd +7", "dirs",
+    "pushd -n $D/work; popd -n", "pushd $D/work; pushd $D/nonexistent; popd", "pushd", "cd $D/nonexistent", "cd $D/work; cd -",
+    "set -- a b c; shift", "set -- a; shift 5", "fargs x y z", "fargs", "shift",
+    "compgen -F nofn -- x", "compgen -F fcomp -- x", "compgen -F ffail -- x", "compgen -F fdiv -- x", "complete -F nofn mycmd",
+    "compgen -F fnest -- x", "compgen -W 'aa ab' -- a",
+    "trap ': d' DEBUG; true; false; trap - DEBUG", "trap 'false' ERR; false; trap - ERR", "trap ': r' RETURN; fargs q; trap - RETURN",
+    "eval 'return 3'", "fret", "for i in 1 2; do break 5; done", "break", "continue 2",
+    "floopret", "fdeep", "alias zz=true; unalias zz", "unalias nosuch", "declare -a arr=(1 2); unset arr", "fnot_defined_zz",
+    "read x </nonexistent/x", "exec 7</dev/null; exec 7<&-", "true 7</nonexistent/x", "( exit 3 )", "echo $(false)",
+    "true | false", "{ false; } 2>/nonexistent/x",
+]
+RAW_PROLOGUE = [
+    "fcomp() { COMPREPLY=(ca cb); }", "ffail() { false; }", "fdiv() { : $((1/0)); }", "fnest() { compgen -F nofn -- q; false; }",
+    "fargs() { shift; set -- p q; local v=1; return 2; }", "fsrc() { . $D/args.sh inner; . $D/empty.sh; return 4; }",
+    "fret() { for i in 1 2; do while true; do return 7; done; done; }", "floopret() { for i in 1 2; do eval 'return 3'; done; }",
+    "fdeep() { if [ ${#FUNCNAME[@]} -lt 6 ]; then fdeep; else . $D/nonexistent.sh; fi; }",
+]
+RAW_FILES = {"empty.sh": "", "comments.sh": "# site-local overrides: none yet\n\n# x\n", "blank.sh": "  \n\t\n\n",
+             "args.sh": ": $# $1\n"}
+# counters that are meant to grow: paths allowed to differ between 1, 2 and 50 iterations
+FP_ALLOW = ("last_exit_status_change_count", "current_line_offset", "last_stopwatch", "secs_since_epoch", "nanos_since_epoch",
+            "program_location_cache", ".history")
+
+
+def iterfp(ctx, n):
+    cases, metas = [], []
+    for k in range(n):
+        rng = random.Random(ctx.seed * 131 + k)
+        body = []
+        funs = []
+        if k % 3 != 0:
+            g = c16.Gen(rng, exec_ok=False, faults=0.3, exit_ok=False)
+            funs, cmds = g.program()
+            cmds = [c for c in cmds if not any(x[0] in ("TX", "TE", "SE") for x in c16.walk(c))] or [("P", ("F",))]
+            funs = [f if not any(x[0] in ("TX", "TE", "SE") for x in c16.walk(f)) else ("B", ("P", ("F",))) for f in funs]
+            rd = c16.Render()
+            pro = ["f%d() %s" % (i, rd.r(nonfatal(f))) for i, f in enumerate(funs)]
+            body = [rd.r(nonfatal(c)) for c in cmds]
+            files = dict(rd.files)
+        else:
+            pro, files = [], {}
+        for _ in range(rng.randrange(2, 7)):
+            body.insert(rng.randrange(0, len(body) + 1), rng.choice(RAW_UNITS))
+        if k < len(RAW_UNITS):
+            body.append(RAW_UNITS[k])        # every unit at least once on every run
+        pro = RAW_PROLOGUE + pro
+        files.update(RAW_FILES)
+        c = [str(len(pro))] + pro + [str(len(body))] + body
+        for nm, txt in files.items():
+            c += [nm, txt]
+        cases.append(c); metas.append({"prologue": pro, "body": body})
+    out = ctx.impl("iterfp", cases, shards=min(core.NPROC, 8))
+    bad = []
+    allowed_seen = {}
+    for line, m in zip(out, metas):
+        if not line.startswith("OK"):
+            bad.append({"input": m, "why": "the session did not complete: %s" % line[:120]})
+            continue
+        fields = core.dec_line(line[2:].strip()) if line[2:].strip() else []
+        leaks = []
+        for f in fields:
+            path = f.split("=")[0]
+            if any(a in path for a in FP_ALLOW):
+                allowed_seen[path.split("[")[0]] = allowed_seen.get(path.split("[")[0], 0) + 1
+                continue
+            leaks.append(f)
+        if leaks:
+            v = {"input": m, "why": "fields of the shell's state after 1/2/50 iterations of the body differ: %s" % ", ".join(leaks[:6])}
+            if all(l.split("=")[0] == ".env.entry_count" for l in leaks):
+                v["known"] = KF_ENTRY_COUNT
+            bad.append(v)
+    return len(cases), bad, {"sessions": len(cases), "raw_units": len(RAW_UNITS), "counters_allowed_to_grow_seen": allowed_seen}
+
+
 def run(ctx):
     hw = handwritten()
     progs = hw + gen(ctx, 1500 if ctx.quick else 12000)
@@ -305,6 +388,8 @@ def run(ctx):
     bad = [i for i, v in zip(sidx, ce) if v != model[i]]
     if bad:
         raise core.CheckBroken("extracted runner and vm_compute disagree on case %r" % (mcs[bad[0]],))
+    fpn, fpbad, fpst = iterfp(ctx, 150 if ctx.quick else 1200)
+    specv.extend(fpbad)
     ex = explore(ctx, 24 if ctx.quick else 150, (1, 2, 50, 500))
     for a in ex["anomalies"]:
         specv.append({"input": {"script": a["script"]}, "why": "process level: " + a["why"]})
@@ -316,7 +401,7 @@ def run(ctx):
     distinct = {json.dumps(c) for c, (_, funs, cmds, _) in zip(mcs, progs)
                 if any(n[0] in fault_kinds or n[0] in ("R", "X") for c2 in funs + cmds for n in c16.walk(c2))}
     return {
-        "evaluations": len(progs) + ex["runs_measured"],
+        "evaluations": len(progs) + ex["runs_measured"] + fpn,
         "distinct_nontrivial": len(distinct),
         "rule": "in-process sessions (one run_string per command, serde dump after each): %d hand-enumerated fault leaf x "
                 "nesting (function, nested function, eval, source, loop, return out of loop in function, subshell, "
@@ -325,9 +410,15 @@ def run(ctx):
                 "plus process-level exploration (descriptor count, zombie count, per-iteration output) of %d random "
                 "bodies iterated 1/2/50/500 times" % (len(hw), len(progs) - len(hw), ex["programs"]),
         "samples": [{"commands": ics[0][2:2 + int(ics[0][1])]}, {"commands": ics[-1][2:2 + int(ics[-1][1])]}],
-        "distribution": {"programs_with_node_kind": kinds, "session_stats": st,
+        "distribution": {"programs_with_node_kind": kinds, "session_stats": st, "generic_state_fingerprint": fpst,
                          "process_level_exploration_not_proof": ex},
-        "notes": ["process-level measurements are exploration, not proof",
+        "notes": ["proof-backed (model + theorems + correspondence): scope-stack and call-stack depth of the modelled language",
+                  "verdict, differential/observational only: every integer field and array/map length of the serde dump of Shell "
+                  "after 1, 2 and 50 iterations (directory stack, positional parameters, trap suppression count, active trap "
+                  "signals, function/source depth, open files, aliases, …) over bodies with empty/comment-only/blank sourced "
+                  "files, /dev/null, sourcing with arguments, pushd/popd/dirs incl. failing ones, completion functions, "
+                  "break/continue/return out of nested constructs (%d sessions)" % fpn,
+                  "process-level measurements are exploration, not proof",
                   "inconclusive_timeouts (exploration runs that exceeded their wall budget and could not be decided): %d; "
                   "resolved by a re-run alone with a budget scaled by N: %d"
                   % (ex["inconclusive_timeout_count"], ex["timeouts_resolved_by_rerun"])],
